@@ -779,7 +779,7 @@ fn passes(ctx: &Ctx) -> Vec<Pass> {
         Pass { name: "full:pk2", setup: vec![CT1, I1, I2], alphabet: table_alphabet(), depth: d(2, 3), clean: false },
         Pass { name: "full:nopk2", setup: vec![CT2, I1, I2], alphabet: table_alphabet(), depth: d(2, 3), clean: false },
         Pass { name: "full:schema", setup: vec![], alphabet: schema_alphabet(), depth: d(3, 4), clean: false },
-        Pass { name: "clean:empty", setup: vec![], alphabet: table_alphabet(), depth: d(4, 5), clean: true },
+        Pass { name: "clean:empty", setup: vec![], alphabet: table_alphabet(), depth: d(3, 4), clean: true },
         Pass { name: "clean:pk2", setup: vec![CT1, I1, I2], alphabet: table_alphabet(), depth: d(3, 4), clean: true },
         Pass { name: "clean:nopk2", setup: vec![CT2, I1, I2], alphabet: table_alphabet(), depth: d(3, 4), clean: true },
         Pass { name: "clean:schema", setup: vec![], alphabet: schema_alphabet(), depth: d(4, 6), clean: true },
@@ -827,9 +827,15 @@ fn avoid(hist: &[Op], m: &Model, op: Op) -> Option<&'static str> {
         RNX if has("c") && has("b") => return Some("KF-C21-08 RENAME onto an existing column"),
         RN if has("b") && has("e") => return Some("KF-C21-08 RENAME onto an existing column"),
         // KF-C21-11: TRUNCATE of a schema-qualified table looks the table up in the default schema
-        TRS if m.st.tables.contains_key("s.t") && t.is_none() => return Some("KF-C21-11 TRUNCATE s.t without a root table t"),
+        TRS if m.st.tables.contains_key("s.t") != t.is_some() => return Some("KF-C21-11 TRUNCATE s.t resolved in the default schema"),
         // KF-C21-09: DROP TABLE leaves the TOAST side table behind, the name cannot be re-created
         CT1 | CT2 if t.is_none() && hist.contains(&DT) => return Some("KF-C21-09 re-CREATE after DROP TABLE"),
+        // KF-C21-14 / KF-C21-13: a re-created table reuses the storage of the dropped one
+        CU if !m.st.tables.contains_key("u") && hist.contains(&DU) => return Some("KF-C21-14 re-CREATE after DROP TABLE"),
+        CST if !m.st.tables.contains_key("s.t") && hist.iter().any(|o| matches!(o, DST | DSC | DS)) && hist.contains(&CST) => return Some("KF-C21-13/14 re-CREATE of s.t after DROP"),
+        // KF-C21-12: s.t next to a root table t is read with the root table's definition
+        CST if t.is_some() && m.schemas.contains("s") && !m.st.tables.contains_key("s.t") => return Some("KF-C21-12 s.t next to a root table t"),
+        CT1 | CT2 if t.is_none() && m.st.tables.contains_key("s.t") => return Some("KF-C21-12 s.t next to a root table t"),
         // KF-C21-05: any CREATE SCHEMA makes the persisted catalog unreadable
         RO if !m.schemas.is_empty() => return Some("KF-C21-05 reopen with a user schema"),
         _ => {}
